@@ -453,6 +453,88 @@ def decodePlainBytes (cd : Codec) (bytes : Bytes) : Except Err Bytes :=
   | .ok f => decodePlain cd f
   | .error e => .error e
 
+/-! ### the other public encoder entry points
+
+`BlteFile::{single_chunk, multi_chunk, compress}` (mod.rs) and `BlteHeader::multi_chunk_extended`
+(header.rs): encoder calls of the property that do not go through `BlteBuilder`. -/
+
+/-- `BlteFile::single_chunk(data, mode)`: header size 0, no table, one `ChunkData::new` chunk. -/
+def singleChunk (cd : Codec) (data : Bytes) (mode : Mode) : Except Err File :=
+  match Chunk.new cd data mode with
+  | .error e => .error e
+  | .ok c => .ok ⟨0, none, [c]⟩
+
+/-- `BlteFile::multi_chunk(chunks)` = `BlteHeader::multi_chunk_with_flags(&chunks, Standard)`:
+always a table (also for one chunk, a layout `BlteBuilder::build` never writes for a plain chunk);
+`InvalidChunkCount` for no chunk or more than `0xFF_FFFF`; header size `12 + 24·n` (`as u32`). -/
+def multiChunk (H : Bytes → Bytes) (chunks : List Chunk) : Except Err File :=
+  if chunks.isEmpty then .error .chunkCount
+  else if chunks.length > 0xFFFFFF then .error .chunkCount
+  else .ok ⟨(12 + chunks.length * 24) % 2 ^ 32, some (chunks.map (Row.ofChunk H)), chunks⟩
+
+/-- a caller's `vec![ChunkData::new(d₁, m₁)?, ChunkData::new(d₂, m₂)?, …]`. -/
+def newChunks (cd : Codec) : List (Bytes × Mode) → Except Err (List Chunk)
+  | [] => .ok []
+  | (d, m) :: rest =>
+    match Chunk.new cd d m with
+    | .error e => .error e
+    | .ok c =>
+      match newChunks cd rest with
+      | .error e => .error e
+      | .ok cs => .ok (c :: cs)
+
+/-- `BlteFile::compress(data, chunk_size, mode)`: one `single_chunk` when the payload fits, else
+the same `while offset < data.len()` loop as the builder (`ChunkData::new` on every slice, the
+first error aborts) followed by `multi_chunk`.  Chunk size 0 with a non-empty payload is
+`Err(InvalidChunkSize)` (after the `fix:` commit; the loop never advanced before). -/
+def compress (cd : Codec) (H : Bytes → Bytes) (data : Bytes) (cs : Nat) (mode : Mode) :
+    Except Err File :=
+  if data.length ≤ cs then singleChunk cd data mode
+  else if cs = 0 then .error .chunkSize
+  else match makeChunks cd mode none (splitLoop cs data.length data) 0 with
+    | .error e => .error e
+    | .ok chunks => multiChunk H chunks
+
+/-! #### the extended (`0x10`, 40-byte rows) table of `BlteHeader::multi_chunk_extended` -/
+
+/-- `ChunkInfo` with `decompressed_checksum = Some(_)`. -/
+structure XRow where
+  row : Row
+  dsum : Bytes
+deriving Repr
+
+/-- `ChunkInfo::from_chunk_data_extended`: the standard row plus `H` of
+`chunk.decompress(0).unwrap_or_else(|_| compressed.clone())`. -/
+def XRow.ofChunk (cd : Codec) (H : Bytes → Bytes) (c : Chunk) : XRow :=
+  ⟨Row.ofChunk H c,
+   H (match decompressChunk cd c.data c.mode with
+      | .ok d => d
+      | .error _ => c.bytes)⟩
+
+/-- a `BlteFile` whose header is `BlteHeader::multi_chunk_extended(&chunks)?`. -/
+structure XFile where
+  headerSize : Nat
+  rows : List XRow
+  chunks : List Chunk
+deriving Repr
+
+/-- `BlteHeader::multi_chunk_with_flags(&chunks, Extended)`: header size `12 + 40·n`. -/
+def multiChunkExt (cd : Codec) (H : Bytes → Bytes) (chunks : List Chunk) : Except Err XFile :=
+  if chunks.isEmpty then .error .chunkCount
+  else if chunks.length > 0xFFFFFF then .error .chunkCount
+  else .ok ⟨(12 + chunks.length * 40) % 2 ^ 32, chunks.map (XRow.ofChunk cd H), chunks⟩
+
+def XRow.bytes (r : XRow) : Bytes := r.row.bytes ++ r.dsum
+
+/-- `CascFormat::build` of such a file: table-format byte `0x10`, 40-byte rows. -/
+def serializeX (f : XFile) : Bytes :=
+  magic ++ beBytes 4 f.headerSize ++ ([0x10] ++ beBytes 3 f.rows.length ++ f.rows.flatMap XRow.bytes) ++
+  f.chunks.flatMap Chunk.bytes
+
+/-- the `File` a reader gets from an extended container (the model's `parse` keeps the standard
+columns of each row). -/
+def XFile.toFile (f : XFile) : File := ⟨f.headerSize, some (f.rows.map (·.row)), f.chunks⟩
+
 /-- the bytes a program adds, in order (what decoding must return). -/
 def Op.content : Op → Bytes
   | .addData d | .addMixed d _ | .addEncrypted d _ _ _ | .addChunkNew d _ => d
